@@ -631,6 +631,12 @@ impl<F: Read + Write + Seek> Package<F> {
         if !Table::is_valid_name(&table_name) {
             invalid_input!("{:?} is not a valid table name", table_name);
         }
+        if table_name == STRING_DATA_TABLE_NAME
+            || table_name == STRING_POOL_TABLE_NAME
+        {
+            // Such a table would share its stream with the string pool.
+            invalid_input!("Cannot create special {:?} table", table_name);
+        }
         if columns.is_empty() {
             invalid_input!("Cannot create a table with no columns");
         }
